@@ -15,10 +15,10 @@ FAMS = [
     PoolMixFamily("C01", "poolmix-async-faulty", 2500, 40000,
                   {"exec": "asyncio", "faulty": True, "cancels": True,
                    "p_srv_idle_close": 0.1, "p_h2_events": 0.3}, [], [_posts]),
-    PoolMixFamily("C01", "poolmix-threads", 800, 15000,
+    PoolMixFamily("C01", "poolmix-threads", 600, 15000,
                   {"exec": "threads", "p_srv_idle_close": 0.1, "max_callers": 4, "protos": ["h1"]},
                   [], [_posts]),
-    PoolMixFamily("C01", "poolmix-threads-faulty", 500, 10000,
+    PoolMixFamily("C01", "poolmix-threads-faulty", 400, 10000,
                   {"exec": "threads", "faulty": True, "max_callers": 4, "protos": ["h1"]}, [], [_posts]),
 ]
 
